@@ -28,6 +28,8 @@ def run(rep, fb, tier):
     from ..rules import pyrules as _pr5
     _pr5.rule_py_call_shape(rep)
     _pr5.rule_py_dead_attr(rep)
+    _pr5.rule_py_index_extent(rep)
+    _pr5.rule_py_byte_lengths(rep)
     _pr5.rule_py_record_field_trim(rep)
     _pr5.rule_py_enumerate_index(rep)
     _pr5.rule_py_form_parameters(rep)
